@@ -62,6 +62,36 @@ func RunC01(tier string) int {
 		r := rng.Derive(uint64(run.Seed), "C01", fmt.Sprint(i))
 		pf := spec.DefaultProfile()
 		s := spec.Gen(r, pf)
+		// twins: two targets of one package declare the very same inputs list, one of them with an
+		// exclude_inputs entry that removes a file the other one keeps; histories with twins also
+		// edit exactly that file
+		twinFile := ""
+		if r.Chance(1, 2) {
+			for _, t1 := range s.Targets {
+				res := s.ResolveInputsVirtual(t1)
+				if len(res) < 2 {
+					continue
+				}
+				var t2 *spec.Target
+				for _, c := range s.Targets {
+					if c != t1 && c.Pkg == t1.Pkg {
+						t2 = c
+					}
+				}
+				if t2 == nil {
+					continue
+				}
+				victim := res[r.Intn(len(res)-1)].Path // never the last one in sorted order
+				t2.Inputs = append([]string{}, t1.Inputs...)
+				t2.Excludes = []string{victim}
+				twinFile = victim
+				if t1.Pkg != "" {
+					twinFile = t1.Pkg + "/" + victim
+				}
+				run.Count("workspaces_with_twin_input_lists", 1)
+				break
+			}
+		}
 		env, err := NewEnv(st.Base, fmt.Sprintf("c%d", i), st.Grog, st.Vctl, s, randCfg(r))
 		if err != nil {
 			run.Infra(err.Error())
@@ -87,6 +117,12 @@ func RunC01(tier string) int {
 					sn := rng.Pick(r, snaps[:len(snaps)-1])
 					name = env.Apply(func() string { env.Spec = sn.Clone(); return "revert-to-earlier-state" })
 					env.Logf("revert to an earlier source state")
+				} else if _, ok := env.Spec.Files[twinFile]; ok && twinFile != "" && r.Chance(1, 4) {
+					name = env.Apply(func() string {
+						env.Spec.Files[twinFile] += "edited " + r.Word(3, 8) + "\n"
+						env.Logf("edit %s (excluded by one twin, an input of the other)", twinFile)
+						return "edit-file-excluded-by-the-twin"
+					})
 				} else {
 					for try := 0; try < 6 && name == ""; try++ {
 						op := pickOp(r, ops)
